@@ -80,7 +80,10 @@ class WorkDir:
         os.makedirs(ov, exist_ok=True)
         src = os.path.join(REPO, "nexosim") + "/"
         dst = os.path.join(ov, "nexosim") + "/"
-        subprocess.run(["rsync", "-a", "--delete", "--exclude", "target", src, dst], check=True)
+        # compare by content and do NOT preserve modification times: a file whose content changed gets the current time, so
+        # cargo rebuilds even when the new content is older than the last build output (e.g. the overlay last held a patched
+        # tree); files with identical content are left alone, so nothing is rebuilt needlessly
+        subprocess.run(["rsync", "-rlpgoD", "--checksum", "--delete", "--exclude", "target", src, dst], check=True)
         shutil.copy(os.path.join(REPO, "Cargo.lock"), os.path.join(ov, "Cargo.lock"))
         with open(os.path.join(ov, "Cargo.toml"), "w") as f:
             f.write('[workspace]\nmembers = ["nexosim"]\nresolver = "2"\n')
